@@ -23,9 +23,15 @@ try:
     r = sh('git -C %s apply %s' % (wt, os.path.abspath(a.patch))); assert r.returncode == 0, 'patch does not apply: ' + r.stderr
     t = sh('cd %s && /venv/bin/python -m pytest -q -p no:cacheprovider 2>&1 | tail -1' % wt, env=env)
     meta['tests_with_change'] = t.stdout.strip()
-    d1 = sh('cd %s && /venv/bin/python %s' % (wt, os.path.abspath(a.demo)), env=env, timeout=300)
+    # demos written by sub-agents may hard-code their own worktree path: run a copy that points at the scratch worktree
+    import re
+    demo_src = open(a.demo).read()
+    demo_src = re.sub(r'/tmp/wt_C\d+', wt, demo_src)
+    demo_copy = os.path.join(wt, '_demo_under_test.py')
+    open(demo_copy, 'w').write(demo_src)
+    d1 = sh('cd %s && /venv/bin/python %s' % (wt, demo_copy), env=env, timeout=300)
     sh('git -C %s checkout -- .' % wt)
-    d0 = sh('cd %s && /venv/bin/python %s' % (wt, os.path.abspath(a.demo)), env=env, timeout=300)
+    d0 = sh('cd %s && /venv/bin/python %s' % (wt, demo_copy), env=env, timeout=300)
     meta['demo_with_change'] = dict(exit=d1.returncode, tail=d1.stdout.strip()[-300:])
     meta['demo_without_change'] = dict(exit=d0.returncode, tail=d0.stdout.strip()[-200:])
 finally:
